@@ -277,6 +277,11 @@ func tcpEngine(rng *Rng, n int, out *Out, args map[string]string) {
 	for c := 0; c < n; c++ {
 		tcpCase(rng.Fork(), e, tg, out)
 	}
+	// directed scenarios (oracle only), after the cases so that the case stream of a seed is unchanged
+	for k := 0; k < 1+n/100; k++ {
+		tcpDirectedDeadline(rng.Fork(), out)
+		tcpDirectedBulk(rng.Fork(), e, out)
+	}
 	for _, l := range tg.lns {
 		l.Close()
 	}
